@@ -45,6 +45,7 @@ class C01Machine(Machine):
         "probe_equals_prefix", "probe_one_short", "split_delivery", "dup_rejected",
         "confluence_group", "chain_parts", "multi_char_delimiter", "non_bmp_probe_matched",
         "piece_carrier_canonical", "piece_carrier_synonym", "piece_carrier_via_uri",
+        "bulk_via_ctor", "bulk_via_epm", "bulk_via_priority", "bulk_via_reverse",
     ]
 
     @classmethod
@@ -115,7 +116,17 @@ class C01Machine(Machine):
         if rng.random() < cfg["p_ctor_first"]:
             n_first = rng.randint(0, len(recs))
         first = recs[:n_first]
-        steps.append({"op": "ctor", "records": first, "delimiter": cfg["delimiter"], "schedule": k})
+        # the bulk part may also arrive through a loader ("supplied" covers every way records get in)
+        via = rng.choice(["ctor", "ctor", "epm", "priority", "reverse"])
+        if via in ("priority", "reverse") and any(r["prefix_synonyms"] for r in first):
+            via = "epm"
+        step0 = {"op": "ctor", "via": via, "records": first, "delimiter": cfg["delimiter"], "schedule": k}
+        if via == "reverse":
+            # a reverse prefix map is a dict: its insertion order is part of the supply order
+            pairs = [[u, r["prefix"]] for r in first for u in [r["uri_prefix"], *r["uri_prefix_synonyms"]]]
+            rng.shuffle(pairs)
+            step0["rpm_pairs"] = pairs
+        steps.append(step0)
         pending = []  # (record, list of later pieces)
         later = []
         for r in recs[n_first:]:
@@ -217,10 +228,30 @@ class C01Machine(Machine):
             return {"confluence": len(self.finals)}
         if kind == "ctor":
             self._new_schedule()
-            self.conv = Converter([Record(**r) for r in op["records"]], delimiter=op.get("delimiter", ":"))
-            for r in op["records"]:
+            via = op.get("via", "ctor")
+            delim = op.get("delimiter", ":")
+            recs = op["records"]
+            if via == "epm":
+                self.conv = Converter.from_extended_prefix_map([dict(r) for r in recs], delimiter=delim)
+            elif via == "priority":
+                self.conv = Converter.from_priority_prefix_map(
+                    {r["prefix"]: [r["uri_prefix"], *r["uri_prefix_synonyms"]] for r in recs}, delimiter=delim)
+            elif via == "reverse":
+                rpm = {}
+                known = {(u, r["prefix"]) for r in recs for u in [r["uri_prefix"], *r["uri_prefix_synonyms"]]}
+                for u, pr in op.get("rpm_pairs", []):
+                    if (u, pr) in known:          # (minimisation may have removed records)
+                        rpm[u] = pr
+                for r in recs:
+                    for u in [r["uri_prefix"], *r["uri_prefix_synonyms"]]:
+                        rpm.setdefault(u, r["prefix"])
+                self.conv = Converter.from_reverse_prefix_map(rpm, delimiter=delim)
+            else:
+                self.conv = Converter([Record(**r) for r in recs], delimiter=delim)
+            for r in recs:
                 self._register(r)
             self.event("ctor")
+            self.probe("bulk_via_" + via)
         elif kind == "chain_parts":
             self._new_schedule()
             parts = [Converter([Record(**r) for r in part]) for part in op["parts"]]
